@@ -59,6 +59,8 @@ type Case struct {
 	L        Limits            `json:"limits"`
 	FailRead []string          `json:"failRead,omitempty"` // addresses whose primary read fails
 	Alt      bool              `json:"alternateSource,omitempty"`
+	// Warm: anchor strings read first through the same (long-lived) provider; their outcome is not judged
+	Warm []string `json:"warm,omitempty"`
 	// MustReject: the mutation realises one of the statement's listed conditions
 	MustReject string `json:"mustReject,omitempty"`
 	// MustAccept: control / at-the-limit case
@@ -143,6 +145,13 @@ func evalCase(c *Case) (string, string, int) {
 	tx := &txn.SidetreeTxn{AnchorString: c.Anchor, Namespace: ns, TransactionTime: 5, TransactionNumber: 1}
 	if c.Alt {
 		tx.AlternateSources = []string{"bad-source", "missing", "alt"}
+	}
+	for _, w := range c.Warm {
+		wt := *tx
+		wt.AnchorString = w
+		if pn := ev.Catch(func() { _, _ = v.Provider.GetTxnOperations(&wt) }); pn != "" {
+			return "C14/panic", fmt.Sprintf("GetTxnOperations panicked on the warm-up anchor %q (%s): %s", w, c.Note, pn), -1
+		}
 	}
 	var ops []*operation.AnchoredOperation
 	var err error
@@ -361,7 +370,7 @@ func collectStrings(v interface{}, out *[]string) {
 }
 
 func TestMutatedFileSets(t *testing.T) {
-	ev.Rule(chkMut, "rapid: a valid file set written by the real OperationHandler for a generated batch (1-12 operations), then 1-4 structural mutations on the decompressed JSON of drawn files (drop / duplicate / swap / null an array entry, delete / null / type-confuse a member, empty / truncate / over-long strings, retarget a string to another suffix / URI / signed-data string of the set), re-compressed under the same address; also arbitrary anchor strings; oracle: error, or number of operations == anchor count with pairwise distinct suffixes, every delta accepted by ValidateDelta and every signed-data string accepted by the matching ParseSignedDataFor*; never a panic; control: the unmutated set reads back; non-trivial = every file is still parseable JSON (the mutation reaches the cross-file logic)")
+	ev.Rule(chkMut, "rapid: a valid file set written by the real OperationHandler for a generated batch (1-12 operations), then 1-4 structural mutations on the decompressed JSON of drawn files (drop / duplicate / swap / null an array entry, delete / null / type-confuse a member, empty / truncate / over-long strings, retarget a string to another suffix / URI / signed-data string of the set), re-compressed under the same address; also arbitrary anchor strings (one time in two after the same provider object has read the genuine anchor string of the set); oracle: error, or number of operations == anchor count with pairwise distinct suffixes, every delta accepted by ValidateDelta and every signed-data string accepted by the matching ParseSignedDataFor*; never a panic; control: the unmutated set reads back; non-trivial = every file is still parseable JSON (the mutation reaches the cross-file logic)")
 	ev.Rapid(t, chkMut, 1500, 20000, func(t *rapid.T) {
 		fs := buildSet(t)
 		ctl := fs.toCase("control: unmutated set")
@@ -391,6 +400,11 @@ func TestMutatedFileSets(t *testing.T) {
 				c.Anchor = rapid.SampledFrom([]string{"", ".", "0." + fs.addr["coreIndex"], "-1." + fs.addr["coreIndex"], "1", "1.2.3", "99999999999999999999." + fs.addr["coreIndex"], "01." + fs.addr["coreIndex"], "1.", "x." + fs.addr["coreIndex"],
 					strconv.Itoa(rapid.IntRange(1, 14).Draw(t, "count")) + "." + fs.addr["coreIndex"], "1." + fs.addr["chunk"], "1." + fs.addr["coreProof"]}).Draw(t, "anchor")
 				notes = append(notes, "anchor string replaced")
+				if rapid.Bool().Draw(t, "warmWithGenuineAnchor") {
+					// the same provider has read the genuine anchor string of this file set before
+					c.Warm = []string{fs.anchor}
+					notes = append(notes, "provider warmed with the genuine anchor")
+				}
 				continue
 			}
 			role := rapid.SampledFrom(present).Draw(t, "file")
